@@ -512,6 +512,7 @@ func c04Run(e *core.Env) {
 		e.Fail(cls, "call", c, fmt.Sprintf("%s.%s(%s) on %s: %s", c.Recv, c.Method, strings.Join(c.Args, ", "), c.Recv, msg))
 	}
 	idx := int64(0)
+	nhang := 0
 	for _, rc := range p.receivers() {
 		var ptrT reflect.Type = rc.typ
 		for mi := 0; mi < ptrT.NumMethod(); mi++ {
@@ -604,6 +605,12 @@ func c04Run(e *core.Env) {
 				case hung:
 					e.Outcome(full+"/hang", false)
 					report("hang", cs, fmt.Sprintf("did not return within %d loop iterations", c04Fuel))
+					nhang++
+					if nhang >= 25 {
+						// every further hang costs seconds; the verdict is already a violation
+						e.Cap("stopped after 25 non-terminating calls in this worker")
+						return
+					}
 					continue
 				case pan != "":
 					if rc.name == "BigInt" && mirrorPanics(m.Name, p.bigs[ri], args[1:]) {
